@@ -45,6 +45,8 @@ extract_default = Contract(
                when=_NOTYP + ["typ=str,emit"],
                note="prose is altered / a default returned only if an announcement phrase occurs (at the witnessed "
                     "position gs): prose that announces no default is returned unaltered, with no default"),
+        Clause("E1c", "all(nowhere_cf(t) for t in %r) or result[1] is not None" % (TOKENS,), when=_NOTYP,
+               note="conversely: when an announcement phrase occurs, a default (possibly the empty text) is extracted"),
         Clause("E6", "result[0] == line", when=["typ=None,emit", "typ=str,emit"]),
         Clause("E2a", "result[1] is None or raw == sub[:len(raw)]", when=_NOTYP, note="scan: the raw value is a prefix of the rest"),
         Clause("E2b", "result[1] is None or forall(lambda j: not stop(sub, j), 0, len(raw))", when=_NOTYP,
